@@ -48,7 +48,8 @@ pub fn build_history(rng: &mut Rng, n: usize) -> Vec<Call> {
     while h.len() < n {
         let (ev, s) = exprs[rng.below(exprs.len())].clone();
         let pool = ph_pool(ev);
-        match rng.below(6) {
+        match rng.below(7) {
+            6 => part_way_failure(rng, ev, &mut h),
             5 => {
                 // iterative functions on neighbouring arguments back to back: a warm start or memo
                 // carried from one call to the next shows in the last digits
@@ -109,6 +110,47 @@ pub fn build_history(rng: &mut Rng, n: usize) -> Vec<Call> {
     }
     h.truncate(n);
     h
+}
+
+/// An evaluation that fails part-way through (a later argument of a many-argument function, the right
+/// operand of an operator, an inner call) between successful evaluations of the same and of unrelated
+/// expressions: whatever the abandoned evaluation had collected must not reach the next one.
+fn part_way_failure(rng: &mut Rng, ev: Ev, h: &mut Vec<Call>) {
+    // sub-expressions whose evaluation fails for some placeholders only
+    let fragile = ["w(@)", "lambert_w(@-1)", "ilog(@,1)", "ilog(2,@)", "1/@", "(@)!", "@*9223372036854775807", "@^99", "3%@", "79228162514264337593543950335+@", "sqrt(@)!"];
+    let outer = ["min", "max", "avg", "med", "median", "gcd", "lcm", "atan2", "pow", "log", "root"];
+    let g = *rng.pick(&fragile[..]);
+    let f = *rng.pick(&outer[..]);
+    let t = match rng.below(6) {
+        0 => format!("{}(@,{},10)", f, g),
+        1 => format!("{}(3,@,{})", f, g),
+        2 => format!("{}(7,{}(@,{}),5)", f, f, g),
+        3 => format!("{}(1,2,3,4,@,{})", f, g),
+        4 => format!("@+{}(2,{})*3", f, g),
+        _ => format!("{}({},@,2)", f, g),
+    };
+    let x = |v: i64| -> Val {
+        match ev {
+            Ev::F64 => Val::F(v as f64),
+            Ev::I64 => Val::I(v),
+            Ev::Dec => Val::D(crate::val::DecV { neg: v < 0, mant: v.unsigned_abs() as u128, scale: 0 }),
+            Ev::Cpx => Val::C(v as f64, 0.0),
+            Ev::Num => {
+                if v % 2 == 0 {
+                    Val::NI(v)
+                } else {
+                    Val::NF(v as f64)
+                }
+            }
+        }
+    };
+    let follow = [format!("{}(9,1,5)", f), format!("{}(@,2)", f), format!("{}(4,@,6,8)", f), t.clone()];
+    let mut vals = [5i64, -1, 7, 0, 12, -5, 1, 3, 100];
+    rng.shuffle(&mut vals);
+    for v in &vals[..5] {
+        h.push(Call { ev, expr: t.clone(), ph: x(*v) });
+        h.push(Call { ev, expr: rng.pick(&follow[..]).clone(), ph: x(vals[rng.below(vals.len())]) });
+    }
 }
 
 /// groups of placeholder values that are equal under ==, or numerically equal, yet distinct
@@ -185,6 +227,19 @@ impl Monitor for C16 {
             }
             prev = format!("{}:{}", c.ev.name(), c.expr);
         }
+        // expressions observed both succeeding and failing, depending on the placeholder only
+        let mut seen: HashMap<String, (bool, bool)> = HashMap::new();
+        for (k, o) in &base {
+            let mut it = k.split('\u{1f}');
+            let ek = format!("{}\u{1f}{}", it.next().unwrap_or(""), it.next().unwrap_or(""));
+            let e = seen.entry(ek).or_insert((false, false));
+            match o {
+                Outcome::Ok(_) => e.0 = true,
+                Outcome::Err(_) => e.1 = true,
+                _ => {}
+            }
+        }
+        ctx.stats.add("expressions_both_succeeding_and_failing", seen.values().filter(|e| e.0 && e.1).count() as u64);
         // phase B: permuted order pi2
         let mut order: Vec<usize> = (0..hist.len()).collect();
         rng.shuffle(&mut order);
@@ -285,7 +340,7 @@ impl Monitor for C16 {
         pass(true)
     }
     fn rule(&self) -> &'static str {
-        "each of the 16 workers builds its own random history (expressions of all five evaluators incl. malformed ones, the same expression with changing placeholders back to back, failing calls between good ones, the same text sent to every evaluator) and runs it (A) sequentially, recording the outcome of every distinct (evaluator, expression, placeholder) and comparing repeats, (B) in a shuffled order, (C) on 16 threads concurrently, each thread replaying the history from a different rotation with thread::yield_now() injected at every k-th counted step, (D) as the first call of a fresh process for a sample; any call observed with two different outcomes (full comparison including error messages) is a violation; begin/end tickets from one atomic counter show which calls overlapped in time; plus Miri (many seeds) and, in the thorough tier, ThreadSanitizer over a multi-threaded replay; non-trivial = every compared observation; distinct = distinct (evaluator, expression, placeholder, phase)"
+        "each of the 16 workers builds its own random history (expressions of all five evaluators incl. malformed ones, the same expression with changing placeholders back to back, failing calls between good ones, evaluations that fail part-way through (in a later argument, a right operand, an inner call) followed by successful ones of the same and of unrelated expressions, the same text sent to every evaluator) and runs it (A) sequentially, recording the outcome of every distinct (evaluator, expression, placeholder) and comparing repeats, (B) in a shuffled order, (C) on 16 threads concurrently, each thread replaying the history from a different rotation with thread::yield_now() injected at every k-th counted step, (D) as the first call of a fresh process for a sample; any call observed with two different outcomes (full comparison including error messages) is a violation; begin/end tickets from one atomic counter show which calls overlapped in time; plus Miri (many seeds) and, in the thorough tier, ThreadSanitizer over a multi-threaded replay; non-trivial = every compared observation; distinct = distinct (evaluator, expression, placeholder, phase)"
     }
     fn assumptions(&self) -> Vec<&'static str> {
         vec![
@@ -294,7 +349,7 @@ impl Monitor for C16 {
         ]
     }
     fn floors(&self, t: Tier) -> Vec<(String, u64)> {
-        vec![("overlapping_call_pairs".into(), 10_000), ("concurrent_calls".into(), t.pick(100_000, 1_000_000)), ("fresh_process_baselines_agreeing".into(), t.pick(100, 1000)), ("distinct_calls".into(), 5_000)]
+        vec![("overlapping_call_pairs".into(), 10_000), ("concurrent_calls".into(), t.pick(100_000, 1_000_000)), ("fresh_process_baselines_agreeing".into(), t.pick(100, 1000)), ("distinct_calls".into(), 5_000), ("expressions_both_succeeding_and_failing".into(), 200)]
     }
 }
 
